@@ -91,7 +91,7 @@ Definition timer_agree (c : timer_case) : bool :=
   let upto := filter (fun t => t <=? tc_horizon c) (ok_writes tr) in
   Zs_eqb upto (tc_writes c) &&
   match end_of tr, tc_end c with
-  | Some (t, _), Some t' => (tc_horizon c <? t) || (t =? t')
+  | Some (t, _), Some t' => (tc_horizon c <? t) || (Z.max 0 t =? t')   (* an instant already past when the connection opens: at once *)
   | Some (t, _), None => tc_horizon c <? t
   | None, None => true
   | None, Some _ => false
@@ -107,7 +107,7 @@ Definition timer_ok (c : timer_case) : bool :=
   forallb (fun t => write_ok cfg t) (tc_writes c) &&
   (* the hub ends the connection itself one dispatch timeout before, not earlier; or at its first write after expiry *)
   match disconnect_due cfg with
-  | Some d => match tc_end c with Some t => t =? d | None => tc_horizon c <? d end
+  | Some d => match tc_end c with Some t => t =? Z.max 0 d | None => tc_horizon c <? d end
   | None =>
       match write_deadline cfg, tc_end c with
       | Some e, Some t => e <? t
